@@ -449,6 +449,16 @@ func (r *WorldResult) transfer(s map[world]struct{}, n ast.Node) map[world]struc
 			}
 			s = out
 		}
+		if ef.Filter != nil {
+			out := map[world]struct{}{}
+			for w := range s {
+				w := w
+				if ef.Filter(func(f Fact) bool { return r.sat(w, f) }) {
+					out[w] = struct{}{}
+				}
+			}
+			s = out
+		}
 		if ef.ImplyIf != nil && ef.ImplyThen != nil {
 			if a, _, ok := factAtom(*ef.ImplyIf); ok {
 				if _, tracked := r.idx[a]; tracked {
